@@ -1,4 +1,5 @@
 import Skglm.Spec.Penalties
+import Skglm.Proofs.ProxAux
 /-
   Lemmas behind C07: each closed-form prox of the model is a global minimiser of the prox
   objective over ℝ.
@@ -6,37 +7,148 @@ import Skglm.Spec.Penalties
 namespace Skglm.Proofs
 open Skglm Skglm.Spec
 
+/-- feasibility of the candidate and of the competitor, shared by the positive penalties -/
+private theorem pos_side {pos : Bool} {u v : ℝ} {A B : ℝ} (hu : pos = true → 0 ≤ u) :
+    (if pos = true ∧ u < 0 then none else some A) = some A ∧
+    ∀ pv, (if pos = true ∧ v < 0 then none else some B) = some pv →
+      pv = B ∧ (pos = true → 0 ≤ v) := by
+  constructor
+  · rw [if_neg]; rintro ⟨hp, hlt⟩; exact absurd (hu hp) (not_le.mpr hlt)
+  · intro pv h
+    split_ifs at h with hc
+    refine ⟨(Option.some.inj h).symm, fun hp => ?_⟩
+    by_contra hneg
+    exact hc ⟨hp, not_le.mp hneg⟩
+
 theorem prox_l1 (a : ℝ) (pos : Bool) (wt x s : ℝ) (h : Admissible (.l1 a pos) wt s) (v : ℝ) :
     ProxLe (.l1 a pos) wt x s ((SepPen.l1 a pos).prox1 wt x s) v := by
-  sorry
+  obtain ⟨hs, _, ha⟩ := h
+  have ht : 0 ≤ a * s := mul_nonneg ha hs.le
+  show ProxLe (.l1 a pos) wt x s (ST x (a * s) pos) v
+  have hu : pos = true → 0 ≤ ST x (a * s) pos := fun hp => by rw [hp]; exact ST_pos_nonneg x _
+  obtain ⟨h1, h2⟩ := pos_side (v := v) (A := a * |ST x (a * s) pos|) (B := a * |v|) hu
+  refine proxLe_of (by rw [pen_l1]; exact h1) ?_
+  intro pv hpv
+  rw [pen_l1] at hpv
+  obtain ⟨rfl, hv⟩ := h2 pv hpv
+  have := ST_div_prox x (a * s) 1 v pos ht one_pos hv
+  simp only [div_one, sub_self, zero_mul, zero_div, add_zero] at this
+  linarith
 
 theorem prox_wl1 (a : ℝ) (pos : Bool) (wt x s : ℝ) (h : Admissible (.wl1 a pos) wt s) (v : ℝ) :
     ProxLe (.wl1 a pos) wt x s ((SepPen.wl1 a pos).prox1 wt x s) v := by
-  sorry
+  obtain ⟨hs, hwt, ha⟩ := h
+  have ht : 0 ≤ a * s * wt := mul_nonneg (mul_nonneg ha hs.le) hwt
+  show ProxLe (.wl1 a pos) wt x s (ST x (a * s * wt) pos) v
+  have hu : pos = true → 0 ≤ ST x (a * s * wt) pos :=
+    fun hp => by rw [hp]; exact ST_pos_nonneg x _
+  obtain ⟨h1, h2⟩ := pos_side (v := v) (A := a * wt * |ST x (a * s * wt) pos|)
+    (B := a * wt * |v|) hu
+  refine proxLe_of (by rw [pen_wl1]; exact h1) ?_
+  intro pv hpv
+  rw [pen_wl1] at hpv
+  obtain ⟨rfl, hv⟩ := h2 pv hpv
+  have := ST_div_prox x (a * s * wt) 1 v pos ht one_pos hv
+  simp only [div_one, sub_self, zero_mul, zero_div, add_zero] at this
+  linarith
 
 theorem prox_l1l2 (a r : ℝ) (pos : Bool) (wt x s : ℝ) (h : Admissible (.l1l2 a r pos) wt s) (v : ℝ) :
     ProxLe (.l1l2 a r pos) wt x s ((SepPen.l1l2 a r pos).prox1 wt x s) v := by
-  sorry
+  obtain ⟨hs, _, ha, hr0, hr1⟩ := h
+  have ht : 0 ≤ r * a * s := mul_nonneg (mul_nonneg hr0 ha) hs.le
+  have hk : 0 ≤ s * (1 - r) * a := mul_nonneg (mul_nonneg hs.le (by linarith)) ha
+  have hD : 0 < 1 + s * (1 - r) * a := by linarith
+  show ProxLe (.l1l2 a r pos) wt x s (ST x (r * a * s) pos / (1 + s * (1 - r) * a)) v
+  have hu : pos = true → 0 ≤ ST x (r * a * s) pos / (1 + s * (1 - r) * a) :=
+    fun hp => by rw [hp]; exact div_nonneg (ST_pos_nonneg x _) hD.le
+  obtain ⟨h1, h2⟩ := pos_side (v := v)
+    (A := a * (r * |ST x (r * a * s) pos / (1 + s * (1 - r) * a)|
+      + (1 - r) * (ST x (r * a * s) pos / (1 + s * (1 - r) * a)) ^ 2 / 2))
+    (B := a * (r * |v| + (1 - r) * v ^ 2 / 2)) hu
+  refine proxLe_of (by rw [pen_l1l2]; exact h1) ?_
+  intro pv hpv
+  rw [pen_l1l2] at hpv
+  obtain ⟨rfl, hv⟩ := h2 pv hpv
+  have := ST_div_prox x (r * a * s) (1 + s * (1 - r) * a) v pos ht hD hv
+  linarith
 
 theorem prox_mcp (a g : ℝ) (pos : Bool) (wt x s : ℝ) (h : Admissible (.mcp a g pos) wt s) (v : ℝ) :
     ProxLe (.mcp a g pos) wt x s ((SepPen.mcp a g pos).prox1 wt x s) v := by
-  sorry
+  obtain ⟨hs, _, ha, hg, hsg⟩ := h
+  show ProxLe (.mcp a g pos) wt x s (prox_MCP x s a g pos 1) v
+  have hu : pos = true → 0 ≤ prox_MCP x s a g pos 1 :=
+    fun hp => by rw [hp]; exact prox_MCP_pos_nonneg x s a g 1 (by rw [one_mul, sub_pos, div_lt_one hg]; exact hsg)
+  obtain ⟨h1, h2⟩ := pos_side (v := v) (A := mcp a g (prox_MCP x s a g pos 1))
+    (B := mcp a g v) hu
+  refine proxLe_of (by rw [pen_mcp]; exact h1) ?_
+  intro pv hpv
+  rw [pen_mcp] at hpv
+  obtain ⟨rfl, hv⟩ := h2 pv hpv
+  have := prox_MCP_prox x s a g 1 v pos (by linarith) ha hg (by linarith) hv
+  rw [one_mul] at this
+  exact this
 
 theorem prox_wmcp (a g : ℝ) (pos : Bool) (wt x s : ℝ) (h : Admissible (.wmcp a g pos) wt s) (v : ℝ) :
     ProxLe (.wmcp a g pos) wt x s ((SepPen.wmcp a g pos).prox1 wt x s) v := by
-  sorry
+  obtain ⟨hs, hwt, ha, hg, hsg⟩ := h
+  show ProxLe (.wmcp a g pos) wt x s (prox_MCP x s a g pos wt) v
+  have hu : pos = true → 0 ≤ prox_MCP x s a g pos wt :=
+    fun hp => by rw [hp]; exact prox_MCP_pos_nonneg x s a g wt (by rw [sub_pos, div_lt_one hg]; exact hsg)
+  obtain ⟨h1, h2⟩ := pos_side (v := v) (A := wt * mcp a g (prox_MCP x s a g pos wt))
+    (B := wt * mcp a g v) hu
+  refine proxLe_of (by rw [pen_wmcp]; exact h1) ?_
+  intro pv hpv
+  rw [pen_wmcp] at hpv
+  obtain ⟨rfl, hv⟩ := h2 pv hpv
+  have := prox_MCP_prox x s a g wt v pos (mul_nonneg hwt hs.le) ha hg hsg hv
+  nlinarith [this]
 
 theorem prox_box (a : ℝ) (wt x s : ℝ) (h : Admissible (.box a) wt s) (v : ℝ) :
     ProxLe (.box a) wt x s ((SepPen.box a).prox1 wt x s) v := by
-  sorry
+  obtain ⟨_, _, ha⟩ := h
+  show ProxLe (.box a) wt x s (box_proj x 0 a) v
+  obtain ⟨hu0, hua, hmin⟩ := box_proj_prox x a v ha
+  refine proxLe_of (pu := 0) (by rw [pen_box, if_pos ⟨hu0, hua⟩]) ?_
+  intro pv hpv
+  rw [pen_box] at hpv
+  split_ifs at hpv with hc
+  obtain rfl := Option.some.inj hpv
+  have := hmin hc.1 hc.2
+  linarith
 
 theorem prox_pos (wt x s : ℝ) (h : Admissible (.pos) wt s) (v : ℝ) :
     ProxLe (.pos) wt x s ((SepPen.pos : SepPen ℝ).prox1 wt x s) v := by
-  sorry
+  have _ := h
+  show ProxLe (.pos) wt x s (smax 0 x) v
+  rw [smax_eq]
+  refine proxLe_of (pu := 0) (by rw [pen_pos, if_neg (not_lt.mpr (le_max_left 0 x))]) ?_
+  intro pv hpv
+  rw [pen_pos] at hpv
+  split_ifs at hpv with hc
+  obtain rfl := Option.some.inj hpv
+  have hv : 0 ≤ v := not_lt.mp hc
+  rcases le_total 0 x with hx | hx
+  · rw [max_eq_right hx]; nlinarith [sq_nonneg (v - x)]
+  · rw [max_eq_left hx]; nlinarith [mul_nonneg hv (neg_nonneg.2 hx), sq_nonneg v]
 
 theorem prox_mcp_range_sharp :
     ∃ a g x s v : ℝ, 0 < s ∧ 0 < g ∧ g ≤ s ∧
       ¬ ProxLe (.mcp a g false) 1 x s ((SepPen.mcp a g false).prox1 1 x s) v := by
-  sorry
+  refine ⟨1, 1, 3 / 2, 2, 3 / 2, by norm_num, by norm_num, by norm_num, ?_⟩
+  have hu : (SepPen.mcp (1:ℝ) 1 false).prox1 1 (3 / 2) 2 = 0 := by
+    show prox_MCP (3 / 2 : ℝ) 2 1 1 false 1 = 0
+    unfold prox_MCP
+    simp only [sabs_eq]
+    rw [if_pos]
+    left
+    rw [abs_of_pos (by norm_num)]; norm_num
+  rw [hu]
+  unfold ProxLe
+  rw [pen_mcp, pen_mcp]
+  have e0 : mcp 1 1 0 = 0 := by rw [mcp_of_le (by norm_num)]; norm_num
+  have e1 : mcp 1 1 (3 / 2) = 1 / 2 := by
+    rw [mcp_of_gt (by rw [abs_of_pos (by norm_num)]; norm_num)]; norm_num
+  simp only [Bool.false_eq_true, false_and, if_false, e0, e1]
+  norm_num
 
 end Skglm.Proofs
